@@ -99,12 +99,35 @@ pub fn world(ch: &mut Chooser) -> World {
     if sb >= 3 {
         w.violated.insert("P0004");
     }
-    let st_opts = ["x : INT ; lv : Level ;", "x : INT ;", "x : INT ; y : BOOL ; z : INT ;", "x : INT ; x : BOOL ;", "x : INT ; X : BOOL ;", "x : INT ; y : INT ; x : INT ;"];
-    let st = ch.pick("struct", &["x,lv", "x", "x,y,z", "dup:x,x", "dup-case:x,X", "dup-nonadjacent:x,y,x"], 1);
-    if st >= 3 {
+    let st_opts = [
+        "x : INT ; lv : Level ;",
+        "x : INT ;",
+        "x : INT ; y : BOOL ; z : INT ;",
+        "x : INT ; x : BOOL ;",
+        "x : INT ; X : BOOL ;",
+        "x : INT ; y : INT ; x : INT ;",
+        "x : INT ; lv : Level := High ;",
+        "x : INT ; lv : Level := Nope ;",
+        "x : INT ; m : Missing ;",
+    ];
+    let st = ch.pick("struct", &["x,lv", "x", "x,y,z", "dup:x,x", "dup-case:x,X", "dup-nonadjacent:x,y,x", "lv:=High", "lv:=undeclared-value", "element-of-unknown-type"], 1);
+    if matches!(st, 3 | 4 | 5) {
         w.violated.insert("P0003");
     }
-    let alias = ch.pick("alias", &["none", "LevelAlias"], 1) == 1;
+    if st == 7 || (st == 6 && !has_high) {
+        w.violated.insert("P0014");
+    }
+    if st == 8 {
+        w.violated.insert("P0022");
+    }
+    let alias_k = ch.pick("alias", &["none", "LevelAlias", "LevelAlias:=High", "LevelAlias:=undeclared-value", "alias-of-unknown-type"], 1);
+    let alias = matches!(alias_k, 1 | 2 | 3);
+    if alias_k == 3 || (alias_k == 2 && !has_high) {
+        w.violated.insert("P0014");
+    }
+    if alias_k == 4 {
+        w.violated.insert("P0022");
+    }
     let arr = ch.pick("array", &["1..3", "0..0-and-1..2", "inv:3..1"], 1);
     let arr_s = ["ARRAY [ 1 .. 3 ] OF INT", "ARRAY [ 0 .. 1 , 1 .. 2 ] OF INT", "ARRAY [ 3 .. 1 ] OF INT"][arr];
     if arr == 2 {
@@ -112,11 +135,14 @@ pub fn world(ch: &mut Chooser) -> World {
     }
     let mut types = format!("TYPE Level : {} := Low ; Rng : INT {} ; Pt : STRUCT {} END_STRUCT ; Arr : {} ;", enum_opts[e], sub_opts[sb], st_opts[st], arr_s);
     if alias {
-        types += " LevelAlias : Level ;";
+        types += [" LevelAlias : Level ;", " LevelAlias : Level := High ;", " LevelAlias : Level := Nope ;"][alias_k - 1];
+    }
+    if alias_k == 4 {
+        types += " BadAlias : Missing ;";
     }
     types += " END_TYPE";
     let mut tdecl = d("Level", "type", &types);
-    tdecl.faulty = e >= 3 || sb >= 3 || st >= 3 || arr == 2;
+    tdecl.faulty = e >= 3 || sb >= 3 || st >= 3 || arr == 2 || alias_k >= 3 || ((st == 6 || alias_k == 2) && !has_high);
 
     // ---------------- callee and function
     let callee = d(
@@ -124,7 +150,13 @@ pub fn world(ch: &mut Chooser) -> World {
         "fb",
         "FUNCTION_BLOCK Callee VAR_INPUT a : INT ; b : BOOL ; END_VAR VAR_OUTPUT q : INT ; END_VAR VAR_IN_OUT io : INT ; END_VAR q := a ; END_FUNCTION_BLOCK",
     );
-    let func = d("Fn", "function", "FUNCTION Fn : INT VAR_INPUT a : INT ; END_VAR Fn := a + 1 ; END_FUNCTION");
+    let fnret = ch.pick("fnresult", &["INT", "enumeration"], 1);
+    let func = if fnret == 0 {
+        d("Fn", "function", "FUNCTION Fn : INT VAR_INPUT a : INT ; END_VAR Fn := a + 1 ; END_FUNCTION")
+    } else {
+        // a second function whose result is an enumeration value; Fn stays for the use sites
+        d("Fn", "function", "FUNCTION Fn : INT VAR_INPUT a : INT ; END_VAR Fn := a + 1 ; END_FUNCTION FUNCTION Fe : Level VAR_INPUT a : INT ; END_VAR Fe := Low ; END_FUNCTION")
+    };
 
     // ---------------- host
     let host_kind = ch.pick("host", &["FB", "PROGRAM"], 0);
@@ -134,8 +166,8 @@ pub fn world(ch: &mut Chooser) -> World {
     if lv_init == 2 || ((lv_init == 0 || lv_init == 3) && !has_high) {
         w.violated.insert("P0014");
     }
-    let xtype = ["INT", "Nope", "DINT"][ch.pick("xtype", &["INT", "unknown-type", "DINT"], 1)];
-    if xtype == "Nope" {
+    let xtype = ["INT", "Nope", "DINT", "Nope := 5", "INT := 5"][ch.pick("xtype", &["INT", "unknown-type", "DINT", "unknown-type-with-initial-value", "INT-with-initial-value"], 1)];
+    if xtype.starts_with("Nope") {
         w.violated.insert("P0022");
     }
     let fbtype = ["Callee", "NoFb"][ch.pick("fbtype", &["Callee", "unknown-fb-type"], 1)];
@@ -260,17 +292,23 @@ pub fn world(ch: &mut Chooser) -> World {
     if task == 2 {
         w.violated.insert("P0011");
     }
+    let g2 = ch.pick("global2", &["none", "of-enumeration-type", "of-structure-type", "of-unknown-type"], 1);
+    let g2_s = ["", "g2 : Level ; ", "g2 : Pt ; ", "g2 : Missing ; "][g2];
+    if g2 == 3 {
+        w.violated.insert("P0022");
+    }
     let mut cfg = d(
         "cfg",
         "configuration",
         &format!(
-            "CONFIGURATION cfg VAR_GLOBAL {}G : INT := 1 ; END_VAR RESOURCE res ON PLC {} PROGRAM inst1{} : Main ; END_RESOURCE END_CONFIGURATION",
+            "CONFIGURATION cfg VAR_GLOBAL {}G : INT := 1 ; END_VAR RESOURCE res ON PLC {}{} PROGRAM inst1{} : Main ; END_RESOURCE END_CONFIGURATION",
             if gconst { "CONSTANT " } else { "" },
+            if g2 == 0 { String::new() } else { format!("VAR_GLOBAL {}END_VAR ", g2_s) },
             task_s,
             with_s
         ),
     );
-    cfg.faulty = task == 2;
+    cfg.faulty = task == 2 || g2 == 3;
     let pos = ch.pick("hostpos", &["host-after-its-dependencies", "host-first"], 0);
     w.decls = if pos == 0 { vec![tdecl, callee, func, host, main, cfg] } else { vec![host, main, cfg, tdecl, callee, func] };
     w.labels.extend(ch.labels.iter().cloned());
